@@ -1034,9 +1034,11 @@ fn check_round_trip(
 
 pub fn execute(scn: &WireScenario, mask: Mask) -> Result<WireResult, Violation> {
     core::log_reset();
+    core::set_case(None);
     let mut res = WireResult { scenario_hash: hash_of(scn), ..Default::default() };
     let r = core::catch(|| execute_inner(scn, mask, &mut res));
     res.log_hash = core::log_value();
+    core::set_case(None);
     match r {
         Ok(Ok(())) => Ok(res),
         Ok(Err(v)) => Err(v),
@@ -1046,6 +1048,7 @@ pub fn execute(scn: &WireScenario, mask: Mask) -> Result<WireResult, Violation> 
             property: if mask.has("C07") { "C07" } else { "C14" }.to_string(),
             clause: core::panic_clause(&msg),
             detail: format!("panic outside a decode call: {}", msg),
+            case: None,
         }),
         Err(_) => {
             probe("codec_panicked_under_a_check_that_does_not_answer_for_it");
@@ -1263,6 +1266,13 @@ fn execute_inner(scn: &WireScenario, mask: Mask, res: &mut WireResult) -> Check 
                 }
             }
             let Ok(Ok(mut reg)) = core::catch(|| PortableRegistry::decode(&mut &encoded[k][..])) else { continue };
+            // the model starts from the registry retain is actually given (a
+            // lossy decode is C07's business, not retain's)
+            let before_owned = PReg::from_lib(&reg);
+            let before = &before_owned;
+            if !before.well_formed() {
+                continue;
+            }
             let len = before.len();
             let accepted: Vec<u32> = (0..len as u32).filter(|&id| keep.accepts(id, len)).collect();
             match core::catch(|| reg.retain(|id| keep.accepts(id, len))) {
@@ -1302,6 +1312,7 @@ fn execute_inner(scn: &WireScenario, mask: Mask, res: &mut WireResult) -> Check 
     let mut survivors: Vec<PortableRegistry> = Vec::new();
     for (ci, case) in scn.cases.iter().enumerate() {
         res.cases += 1;
+        core::set_case(Some(ci));
         match case {
             Case::Scale { faults, reader } => {
                 let medium = build_medium(&encoded, &scn.sentinel, faults);
